@@ -906,6 +906,7 @@ STD_MODELS = [
     (r'^std::string::String::new$', m_string_new),
     (r'^std::string::String::push_str$', m_string_push),
     (r'^std::string::String::is_empty$', m_string_is_empty),
+    (r'^<(std::option::)?Option<.*> as PartialEq>::(eq|ne)$', lambda ex, c, a: (lambda e: Scalar(norm(e if c.endswith('::eq') else z_not(e)), 'bool'))(val_eq(ex, a[0], a[1]))),
     (r'^<std::string::String as PartialEq>::eq$', lambda ex, c, a: boolv(strip(ex, a[0]).text == strip(ex, a[1]).text)),
     (r'^<std::string::String as PartialEq>::ne$', lambda ex, c, a: boolv(strip(ex, a[0]).text != strip(ex, a[1]).text)),
     (r'^<std::string::String as Deref>::deref$', lambda ex, c, a: ex.deref_val(a[0])),
